@@ -198,7 +198,8 @@ pub fn write_float_scientific<const FORMAT: u128>(
     options: &Options,
 ) -> usize {
     // PRECONDITIONS
-    debug_assert!(bytes.len() >= BUFFER_SIZE);
+    // NOTE: The sign has already been split off the buffer.
+    debug_assert!(bytes.len() >= BUFFER_SIZE - 1);
 
     // Config options.
     let format = NumberFormat::<{ FORMAT }> {};
@@ -273,7 +274,8 @@ pub fn write_float_nonscientific<const FORMAT: u128>(
     options: &Options,
 ) -> usize {
     // PRECONDITIONS
-    debug_assert!(bytes.len() >= BUFFER_SIZE);
+    // NOTE: The sign has already been split off the buffer.
+    debug_assert!(bytes.len() >= BUFFER_SIZE - 1);
 
     // Config options.
     let format = NumberFormat::<{ FORMAT }> {};
